@@ -42,7 +42,8 @@ META = {
                 'type; homogeneity flags are only ever lowered inside the '
                 'element loop', 'D3 one splitter', 'D4 no dead decision',
                 'D5 splitter tiling and bracket matching',
-                'D6 variant encoder/decoder agreement (shared with C01/C02)'],
+                'D6 variant and array encoder/decoder agreement (shared with '
+                'C01/C02)'],
     'undecided': ['exactness of the splitter on every valid signature',
                   'value round trip under the inferred signature (C01)'],
 }
@@ -235,6 +236,11 @@ def run(ctx):
     for le, _ in R.ORDERS:
         c01.variant_rules(ctx, cm, 'C19.D6', 'C19.D6', le,
                           rule_spec='C19.D6')
+        # every container the inference can produce is an ARRAY (av, aT,
+        # a{sv}, a{kT}): the array encoder and decoder must account for
+        # length, padding and elements alike (C01-D6)
+        c01.array_encoder(ctx, cm, 'C19.D6', le)
+        c01.array_decoder(ctx, cm, 'C19.D6', le)
         for fi in (cm.enc['v'], cm.dec['v']):
             for p in cm.paths(fi, le):
                 R.check_threading(ctx, cm, 'C19.D6', fi, le, p, fi.name)
